@@ -11,7 +11,9 @@ import math
 
 import numpy as onp
 
-from mc.core import Axis, deviations, horizon, HorizonExceeded, stable_hash
+from collections import OrderedDict
+
+from mc.core import Axis, case_id, deviations, horizon, HorizonExceeded, stable_hash
 
 ID = "C05"
 TITLE = "TrustRegionSPG: feasibility of every reported iterate, descent, honest flag, box-QP minimiser, projections"
@@ -52,6 +54,11 @@ def _axes():
         Axis("tol", [("1e-8", 1e-8), ("1e-3", 1e-3)]),
         Axis("entry", [("min", "min"), ("solve-nowarm", "solve-nowarm"), ("solve-warm", "solve-warm")]),
     ]
+
+
+WARM_CAPPED = [{"entry": "solve-warm", "maxtr": "1", "maxspg": "1"}, {"entry": "solve-warm", "maxtr": "1", "tr": "1e-3"},
+               {"entry": "solve-warm", "maxtr": "1", "tr": "1e3"}, {"entry": "solve-warm", "maxtr": "2", "maxspg": "1"},
+               {"entry": "solve-warm", "maxtr": "1", "maxspg": "1", "nonmono": "F"}]
 
 
 def _ks(tier):
@@ -137,7 +144,7 @@ def _boxes(n, centre, part, tier):
             yield "box=%s:%s" % ("".join(x[0] for x in combo), pl), lb, ub
 
 
-def _starts(lb, ub, centre, part, tier):
+def _starts(lb, ub, centre, part, tier, fam=None):
     n = lb.size
     lo = onp.where(onp.isfinite(lb), lb, onp.where(onp.isfinite(ub), ub - 3.0, centre - 3.0))
     hi = onp.where(onp.isfinite(ub), ub, onp.where(onp.isfinite(lb), lb + 3.0, centre + 3.0))
@@ -146,6 +153,8 @@ def _starts(lb, ub, centre, part, tier):
     face[0] = lo[0]
     sts = [("lowvertex", lo), ("centre", mid), ("highvertex", hi), ("facemid", face)]
     if tier == "quick":
+        if fam == "rosenbrock":
+            return sts[:2]      # 'centre' too: a first trust-region step from there is rejected (needed to see defect D29)
         return sts[:2] if part == "A" else sts[:1]
     return sts if part == "A" else sts[:2]
 
@@ -224,6 +233,16 @@ def run_group(g, tier, seed, rec):
         kB = kA
     axes = _axes()
     configs = list(deviations(axes, kA if part == "A" else kB))
+    # named combinations beyond the deviation bound, in every tier and group: the warm-started entry under iteration caps
+    # that end the solve before any step is accepted (the unprojected warm start of defect D29 was returned only then)
+    have = {c[1] for c in configs}
+    for over in WARM_CAPPED:
+        labels = [over.get(a.name, a.default) for a in axes]
+        cfgid = case_id(axes, labels)
+        if cfgid not in have:
+            have.add(cfgid)
+            configs.append((len(over), cfgid, OrderedDict((a.name, l) for a, l in zip(axes, labels)),
+                            OrderedDict((a.name, a.value[l]) for a, l in zip(axes, labels))))
 
     banner = []
 
@@ -259,7 +278,7 @@ def run_group(g, tier, seed, rec):
                      [("lowvertex", onp.array([math.pi - 0.5])), ("highvertex", onp.array([math.pi + 2.0])),
                       ("atmax", onp.array([math.pi]))])]
     else:
-        problems = [(bl, lb, ub, _starts(lb, ub, centre, part, tier)) for bl, lb, ub in _boxes(n, centre, part, tier)]
+        problems = [(bl, lb, ub, _starts(lb, ub, centre, part, tier, fam)) for bl, lb, ub in _boxes(n, centre, part, tier)]
 
     idx = -1
     sample_budget = [2]
